@@ -8,11 +8,16 @@ ROOT=$(cd "$(dirname "$0")" && pwd)
 what=${1:-all}
 export CARGO_NET_OFFLINE=true
 build_coq() {
+  mkdir -p "$ROOT/_build"
+  # source translators T1-T5: coq/Gen/Sources.v is regenerated from /repo/src (rewritten only when it changes)
+  python3 "$ROOT/tools/scan.py" > "$ROOT/_build/scan.log" 2>&1 || { cat "$ROOT/_build/scan.log"; echo "scan failed"; exit 1; }
   cd "$ROOT/coq"
   [ -f Makefile ] && [ Makefile -nt _CoqProject ] || coq_makefile -f _CoqProject -o Makefile >/dev/null
-  mkdir -p "$ROOT/_build"
-  set +e
-  timeout 3000 make -j16 > "$ROOT/_build/coq_make.log" 2>&1
+    set +e
+  # -k: a property file that no longer checks (e.g. because a regenerated inventory changed) must not
+  # block the model, the extraction and the other properties; each check looks at its own obligations
+  timeout 3000 make -k -j16 > "$ROOT/_build/coq_make.log" 2>&1
+  timeout 600 make Extract/Extract.vo >> "$ROOT/_build/coq_make.log" 2>&1
   st=$?
   set -e
   if [ $st -ne 0 ]; then grep -v '^COQC\|^COQDEP\|^make\|^CLEAN' "$ROOT/_build/coq_make.log" | tail -40; echo "coq build failed ($st)"; exit 1; fi
